@@ -33,7 +33,7 @@ def cases(tier, seed):
             t[0] = 0
         add([{"shape": sh[0], "dims": sh[1], "k": 1, "at": base, "type": t[0]},
              {"shape": sh2[0], "dims": sh2[1], "k": 1, "at": [base[0] + dx, base[1] + dy, base[2] + dz], "type": t[1]}],
-            rnd.choice([1.0, 2.0 ** -17, 2.0 ** -20]), rnd.choice([1, 2]), rnd.choice([1, 2]))
+            rnd.choice([1.0, 2.0 ** -17, 2.0 ** -20, 2.0 ** -27, 2.0 ** -34]), rnd.choice([1, 2]), rnd.choice([1, 2]))
     # exact alignment of the global box with the voxel size, epsilon absorbed
     for at in ([1000, 1000, 1000], [-1000, 1000, 8], [8, 8, 8]):
         add([{"shape": "box", "dims": [1, 1, 1], "k": 1, "at": at, "type": 2}, {"shape": "box", "dims": [1, 1, 1], "k": 1, "at": at, "type": 4}], 1.0, 1, 2)
@@ -44,7 +44,7 @@ def cases(tier, seed):
         base = rnd.choice([[0, 0, 0], [300, -200, 100]])
         cells = [{"shape": rnd.choice(["box", "octa", "tetra"]), "dims": [rnd.randint(1, 2) for _ in range(3)], "k": 1,
                   "at": [base[a] + rnd.randint(-3, 3) for a in range(3)], "type": types[i]} for i in range(k)]
-        add(cells, rnd.choice([1.0, 2.0 ** -17]), rnd.choice([1, 2]), rnd.choice([1, 2]))
+        add(cells, rnd.choice([1.0, 2.0 ** -17, 2.0 ** -27]), rnd.choice([1, 2]), rnd.choice([1, 2]))
     # a tissue with more than 65536 faces in total (a finely meshed bystander far away, listed FIRST, then two small cells in contact):
     # global face numbers, offsets and counters beyond 16 bits
     add([{"shape": "sphere", "level": 7, "dims": [1, 1, 1], "k": 1, "at": [2000, 0, 0], "type": 2},
